@@ -21,8 +21,15 @@ func c13Run(t *testing.T, r *vRand, mb, nev int, focus bool, scenario int) *cfsC
 		if mb >= 3 && r.Chance(2, 3) {
 			na = r.Intn(3)*mb + 2 + r.Intn(mb-2) // ends in a short segment of at least 2 bytes
 		}
+		pack := mb >= 2 && r.Chance(1, 3)
+		if pack {
+			// two files small enough that the flush packs them into ONE block
+			na = 1 + r.Intn(mb/2)
+		}
 		c.runOp(func() { c.se.scriptCreateWrite(r, "a", na, c.addOp) })
-		if r.Bool() {
+		if pack {
+			c.runOp(func() { c.se.scriptCreateWrite(r, "b", 1+r.Intn(mb/2), c.addOp) })
+		} else if r.Bool() {
 			c.runOp(func() { c.se.scriptCreateWrite(r, "b", 1+r.Intn(mb+1), c.addOp) })
 		}
 		c.flush("", true)
@@ -34,6 +41,12 @@ func c13Run(t *testing.T, r *vRand, mb, nev int, focus bool, scenario int) *cfsC
 			if r.Chance(1, 3) {
 				c.completeOne()
 			}
+		}
+		if r.Bool() {
+			// save while the flush started above is still in flight and a file it packed was changed
+			c.forceInflight = true
+			c.marshal()
+			c.forceInflight = false
 		}
 		c.completeAll()
 		c.se.readAll("a", c.addOp)
